@@ -176,6 +176,17 @@ def check_config(rep, prog):
                 okd = okd and leaves == want
         ok = ok and okd
     req(ok, "P4", "viewport-dims", b_.where(), "Camera::viewport records dims = (right - left, bottom - top) of the same intersected rectangle it builds the matrix from")
+    # ... and it is a frame condition on the projection: a Camera holds its projection as a bare matrix, with no record of whether it is
+    # a perspective, an orthographic or a user-supplied one, so viewport() cannot adjust it correctly for all of them — the matrix it
+    # returns must be the one it was given (an orthographic box must still map onto the clip volume after the viewport is set)
+    fields = cam["variants"][0]["fields"]
+    if set(fields) == {"mode", "dims", "project", "viewport"}:
+        pi = fields.index("project")
+        ok = len(aggs) >= 1
+        for ag in aggs:
+            pj = T.strip(ag[2][pi], sites=True, refs=True)
+            ok = ok and pj[0] == "field" and pj[2] == "Camera.project" and T.strip(pj[1], sites=True, refs=True)[0] == "param"
+        req(ok, "P4", "viewport-frame", b_.where(), "Camera::viewport returns the projection matrix it was given (the camera keeps no record of the projection's kind to adjust it by)")
     cp = [b2 for p, b2 in prog.bodies.items() if p.startswith("retrofire_core::render::cam::Camera::<M>::perspective") and b2.kind == "AssocFn"]
     if cp:
         sl = T.Slicer(cp[0])
